@@ -697,6 +697,12 @@ func (gen *Generator) GenerateCallBySymbol(sym *SexpSymbol, args []Sexp, orig Se
 	oldtail := gen.Tail
 	gen.Tail = false
 	if oldtail && sym.name == gen.funcname && gen.isSelfTailCall(sym, len(args)) {
+		// The name can be rebound by the time the call runs (a parameter
+		// or a local named like the function): the jump is taken only when
+		// the name still denotes the running function, otherwise the
+		// ordinary call below the jump is made.
+		guard := len(gen.instructions)
+		gen.AddInstruction(SelfTailGuardInstr{sym: sym})
 		err := gen.GenerateCallArgsForFunction(gen.LookupKnownFunction(sym), args)
 		if err != nil {
 			return err
@@ -715,6 +721,8 @@ func (gen *Generator) GenerateCallBySymbol(sym *SexpSymbol, args []Sexp, orig Se
 		// earlier iterations see the later arguments.)
 		gen.AddInstruction(RemoveScopeInstr{})
 		gen.AddInstruction(GotoInstr{0})
+		gen.instructions[guard] = SelfTailGuardInstr{sym: sym, otherwise: len(gen.instructions) - guard}
+		gen.AddInstruction(CallExprInstr{callee: sym, args: append([]Sexp(nil), args...)})
 	} else {
 		gen.AddInstruction(CallExprInstr{callee: sym, args: append([]Sexp(nil), args...)})
 	}
